@@ -120,8 +120,8 @@ def opRun (j : Json) : R Json := do
       out := out.push (ofObj X)
     | _ =>
       let op ← opOf kind s
-      -- one operation of the history: `Obj.run` on the one-element history (`run_single`: it is `Obj.step`)
-      match X.run rq [op] with
+      -- one operation of the history (`run_single` / `run_cons`: `Obj.run` threads exactly these steps)
+      match X.step rq op with
       | .error e => throw e
       | .ok Y =>
         if !segmentAuxOk Y then throw "irrational-root"
